@@ -70,7 +70,7 @@ def get_accessor_for_url(url, accessor_options={}):
         accessor = http_accessor.HttpAccessor(url)
 
         is_sharding = False
-        if "sharding" in accessor_options:
+        if accessor_options.get("sharding"):
             is_sharding = True
         if not is_sharding:
             try:
